@@ -21,9 +21,10 @@ PROPS = {
             r'c06_bin_(add|sub|mul|div)_int', r'c06_bin_(and|or)_bool', r'c06_bin_union_set0',
             r'c06_bin_bit(and|xor)_int', r'c06_bin_lazyor_bool', r'c06_bin_get_(arr1|map1)',
             r'c06_un_(negate|length)', r'c06_mul_overflow_boundary', r'c06_div_value_64by8',
+            r'c06e_seq_len0to2_[abc]', r'c06e_seq_len3_(00|lt)',
         ],
-        'thorough': [r'c06_bin_(?!ffi_(str|var)$)\w+', r'c06_un_\w+', r'c06_mul_value_32x8', r'c06_ffi_unknown_symbol'],
-        'per_harness': {r'c06_un_typeof': {'unwindset': 'memcmp.0:20'}},
+        'thorough': [r'c06_bin_(?!ffi_(str|var)$)\w+', r'c06_un_\w+', r'c06_mul_value_32x8', r'c06_ffi_unknown_symbol', r'c06e_seq_\w+'],
+        'per_harness': {r'c06_un_typeof': {'unwindset': 'memcmp.0:20'}, r'c06e_\w+': {'cap': 900}},
         'cap': {'quick': 300, 'thorough': 900},
         'functions': ['datalog::expression::Binary::evaluate', 'datalog::expression::Unary::evaluate',
                       'datalog::symbol::TemporarySymbolTable::{new,get_symbol,insert}', 'derived Clone/Drop/Ord/PartialEq of datalog::Term'],
@@ -36,7 +37,7 @@ PROPS = {
     },
     'C16': {
         'crate': 'biscuit-auth',
-        'quick': [r'c16_term_(int|null|set_null|array|map|set_int)', r'c16_binary_\w+', r'c16_unary_and_closure', r'c16_check_kinds_and_scopes', r'c16_sigversion_\w+', r'c02_new_signature_version'],
+        'quick': [r'c16_term_(int|null|set_null|array|map|set_int)', r'c16_binary_\w+', r'c16_unary_and_closure', r'c16_check_kinds_and_scopes', r'c16_sigversion_\w+', r'c02_new_signature_version', r'c02_append_datalog_block_v1_v0'],
         'per_harness': {r'c02_\w+': {'unwindset': 'memcmp.0:200'}},
         'thorough': [r'c16_\w+'],
         'cap': {'quick': 300, 'thorough': 900},
@@ -85,7 +86,7 @@ PROPS = {
     },
     'C01': {
         'crate': 'biscuit-auth',
-        'quick': [r'c01_walk_(auth_v0|auth_v1|auth_v2_refused|auth_v1_sealed|v0_v0|v1_v1|v0_v1ext)'],
+        'quick': [r'c01_walk_(auth_v0|auth_v1|auth_v2_refused|auth_v1_sealed|v0_v0|v1_v1|v0_v1ext|v0_v1ext_sealed)'],
         'thorough': [r'c01_\w+'],
         'cap': {'quick': 600, 'thorough': 1800},
         'per_harness': {r'c01_\w+': {'unwindset': 'memcmp.0:200'}},
@@ -99,7 +100,7 @@ PROPS = {
     },
     'C02': {
         'crate': 'biscuit-auth',
-        'quick': [r'c02_append_(after_block_v0_v0|after_block_v0_v1|third_party_after_block|after_two_blocks_v1|datalog_block_v0_v0)', r'c02_seal_after_block', r'c02_new_token_v[01]', r'c02_to_proto_fields', r'c02_new_signature_version'],
+        'quick': [r'c02_append_(after_block_v0_v0|after_block_v0_v1|third_party_after_block|after_two_blocks_v1|datalog_block_v0_v0)', r'c02_seal_after_block', r'c02_seal_after_third_party_block', r'c02_new_token_v[01]', r'c02_to_proto_fields', r'c02_new_signature_version', r'c02_append_datalog_block_v1_v0'],
         'thorough': [r'c02_\w+'],
         'cap': {'quick': 600, 'thorough': 1800},
         'per_harness': {r'c0[278]x?_\w+': {'unwindset': 'memcmp.0:200'}},
@@ -135,7 +136,7 @@ PROPS = {
     },
     'C07': {
         'crate': 'biscuit-auth',
-        'quick': [r'c07_\w+', r'c03_load_third_party_block_scope', r'c01_walk_(v0_v1ext|v0_v0ext_legacy)', r'c02_append_third_party_\w+'],
+        'quick': [r'c07_\w+', r'c03_load_third_party_block_scope', r'c01_walk_(v0_v1ext|v0_v0ext_legacy|v0_v1ext_sealed)', r'c02_append_third_party_\w+', r'c02_seal_after_third_party_block'],
         'thorough': [r'c01_walk_v0_v1ext_v1'],
         'cap': {'quick': 600, 'thorough': 1800},
         'per_harness': {r'c0[1278]_\w+': {'unwindset': 'memcmp.0:200'}, r'c03_load_\w+': {'unwindset': 'memcmp.0:40'}},
